@@ -8,6 +8,77 @@ from .facts import Facts
 PROPS = ["C01", "C02", "C03", "C04", "C05", "C07", "C08", "C09", "C10", "C11", "C12", "C13", "C14", "C15", "C16", "C17", "C18"]
 
 
+WITNESS_PROPS = {"C01": ["W4"], "C02": ["W5"], "C03": ["W3", "W4"], "C05": ["W2"], "C07": ["W1"], "C10": ["W6"], "C12": ["W6"]}
+SELFTEST = {}
+
+
+def thorough_extras(ctx, prop, repo):
+    """thorough tier = quick rules + compile-fail witnesses + checker self-test (mutants, seeded changes, benign refactors) for this property.
+    The self-test exercises the checker on scratch copies; it never decides the verdict on the repository."""
+    import concurrent.futures, re as _re
+    sys.path.insert(0, os.path.join(VERIF, "tools"))
+    if prop in WITNESS_PROPS:
+        from . import witness
+        ok, d = witness.run(repo)
+        rid = prop + ".W"
+        ctx.rule(rid, "compile_fail witnesses (with compiling twins) for the type-level facts this property's rules rely on", floor=len(WITNESS_PROPS[prop]))
+        for w in WITNESS_PROPS[prop]:
+            tests = [t for t in d.get("tests", []) if " %s " % w in t]
+            good = len(tests) == 2 and not any(w in f for f in d.get("failed", []))
+            ctx.check(good and ok, rid, "witness:%s" % w, "witness %s: the offending program fails to compile with the expected error, its twin compiles" % w, None, d.get("log") or d.get("failed"))
+    if os.path.abspath(repo) != "/repo" or os.environ.get("VERIF_NO_SELFTEST"):
+        return
+    import selftest, mutate, benigntest
+    specs = [m for m in selftest.load_specs() if prop in m["expect"]]
+    seeds = []
+    sd = os.path.join(VERIF, "seeded")
+    for d in sorted(os.listdir(sd)) if os.path.isdir(sd) else []:
+        mp = os.path.join(sd, d, "meta.json")
+        if os.path.exists(mp):
+            m = json.load(open(mp))
+            if m.get("breaks_property") == prop:
+                seeds.append((d, os.path.join(sd, d, "patch.diff")))
+    benign = benigntest.load()
+    out = {"mutants": [], "seeds": [], "benign": []}
+
+    def mut(m):
+        r = selftest.run_one(m, {prop}, repo)
+        return ("mut", m["name"], r)
+
+    def seed(x):
+        d, patch = x
+        res, err = mutate.run(patch, [prop], repo=repo)
+        fired = [] if res is None else sorted(set(_re.findall(r"^\s+\[(C\d\d[.\w]*)\]", res[prop][1], _re.M)))
+        return ("seed", d, {"rc": None if res is None else res[prop][0], "fired": fired})
+
+    def ben(b):
+        patch = os.path.join(VERIF, "mutants", "benign", b["name"] + ".patch")
+        res, err = mutate.run(patch, [prop], repo=repo)
+        return ("ben", b["name"], {"rc": None if res is None else res[prop][0],
+                                   "fired": [] if res is None else sorted(set(_re.findall(r"^\s+\[(C\d\d[.\w]*)\] (\S+)", res[prop][1], _re.M)))})
+    jobs = [(mut, m) for m in specs] + [(seed, s) for s in seeds] + [(ben, b) for b in benign]
+    with concurrent.futures.ThreadPoolExecutor(max_workers=12) as ex:
+        for kind, name, r in ex.map(lambda j: j[0](j[1]), jobs):
+            if kind == "mut":
+                out["mutants"].append({"name": name, "status": (r or {}).get("status"), "fired": (r or {}).get("results", {}).get(prop, {}).get("fired")})
+            elif kind == "seed":
+                out["seeds"].append({"name": name, "detected": r["rc"] == 1, "fired": r["fired"]})
+            else:
+                out["benign"].append({"name": name, "silent": r["rc"] == 0, "fired": r["fired"]})
+    SELFTEST[prop] = {
+        "mutants_total": len(out["mutants"]), "mutants_killed": sum(1 for m in out["mutants"] if m["status"] == "killed"),
+        "mutants_not_killed": [m for m in out["mutants"] if m["status"] != "killed"],
+        "seeded_total": len(out["seeds"]), "seeded_detected": sum(1 for m in out["seeds"] if m["detected"]),
+        "seeded_missed": [m["name"] for m in out["seeds"] if not m["detected"]],
+        "benign_total": len(out["benign"]), "benign_silent": sum(1 for m in out["benign"] if m["silent"]),
+        "benign_alarms": [m for m in out["benign"] if not m["silent"]],
+        "mutants": out["mutants"], "seeds": out["seeds"],
+    }
+    st = SELFTEST[prop]
+    print("SELFTEST %s: mutants %d/%d killed, seeded changes %d/%d detected, benign refactors %d/%d silent" % (
+        prop, st["mutants_killed"], st["mutants_total"], st["seeded_detected"], st["seeded_total"], st["benign_silent"], st["benign_total"]))
+
+
 def run_property(prop, tier, repo, evidence_dir=None, quiet=False):
     t0 = time.time()
     seed = int(os.environ.get("VERIF_SEED", "0") or 0)
@@ -22,8 +93,8 @@ def run_property(prop, tier, repo, evidence_dir=None, quiet=False):
         ctx = Ctx(F, prop, tier)
         mod = importlib.import_module("engine.rules." + prop)
         mod.run(ctx)
-        if tier == "thorough" and hasattr(mod, "thorough"):
-            mod.thorough(ctx)
+        if tier == "thorough":
+            thorough_extras(ctx, prop, repo)
         ctx.finish_floors()
     except extract.ExtractError as e:
         ctx = ctx or Ctx(None, prop, tier)
@@ -76,6 +147,7 @@ def run_property(prop, tier, repo, evidence_dir=None, quiet=False):
                              "oracle/ tables"],
             "not_decided": ctx.notes,
             "known_findings_matched": [o.key for o in known_hits],
+            **({"checker_selftest": SELFTEST[prop]} if prop in SELFTEST else {}),
         },
         "assumptions": ctx.assumptions + ["only x86_64-unknown-linux-gnu configurations are compiled; cfg(windows)/aix/nto/android-32 code is not analysed"],
         "wall_s": round(time.time() - t0, 3),
